@@ -427,7 +427,9 @@ def gen_data(
     dtype = "float64"
     if not particles:
         particles = sorted(amp.decay_group.outs)
-    phsp = prepare_data_from_decay(mcfile, amp.decay_group, dtype=dtype)
+    phsp = prepare_data_from_decay(
+        mcfile, amp.decay_group, particles=particles, dtype=dtype
+    )
     phsp = data_to_tensor(phsp)
     ampsq = amp(phsp)
     ampsq_max = tf.reduce_max(ampsq).numpy()
